@@ -21,8 +21,8 @@ use std::time::Duration;
 use tokio::sync::Notify;
 
 pub const NODES: usize = 3;
-pub const STMT_PREFIX: &str = "SELECT run, idx FROM ks.pg WHERE run = ";
-pub const STMT_PREPARED: &str = "SELECT run, idx FROM ks.pg WHERE run = ?";
+pub const STMT_PREFIX: &str = "SELECT a, run, idx, b, c FROM ks.pg WHERE run = ";
+pub const STMT_PREPARED: &str = "SELECT a, run, idx, b, c FROM ks.pg WHERE run = ?";
 /// liveness deadline for one case (correct code needs milliseconds)
 pub const CASE_DEADLINE: Duration = Duration::from_secs(20);
 /// how long a pausing consumer waits for the producer to run ahead before it resumes polling
@@ -198,6 +198,54 @@ impl Consumer {
     }
 }
 
+/// One delivered row: (a int NULLable, run int, idx int, b text NULLable, c int NULLable) - NULLs are possible in the
+/// first, a middle and the last column.
+pub type Row = (Option<i32>, i32, i32, Option<String>, Option<i32>);
+
+/// Cell contents of the scripted rows.
+#[derive(Clone, Copy, Debug, PartialEq, Eq, PartialOrd, Ord, Hash)]
+pub enum RowShape {
+    /// row idx has NULLs according to the bits of (idx + offset) mod 8: bit 0 -> a, bit 1 -> b, bit 2 -> c. Every
+    /// NULL position and combination occurs, also in rows that are followed by further rows of the same page.
+    Nulls(u8),
+    /// as Nulls(1), and the text cell of row 0 has this many bytes (a page whose frame body exceeds 32 KiB / 64 KiB)
+    Big(usize),
+}
+impl RowShape {
+    pub fn name(self) -> String {
+        match self {
+            RowShape::Nulls(k) => format!("nulls:{k}"),
+            RowShape::Big(n) => format!("big:{n}"),
+        }
+    }
+    pub fn from_name(s: &str) -> Option<RowShape> {
+        let (k, v) = s.split_once(':')?;
+        match k {
+            "nulls" => Some(RowShape::Nulls(v.parse().ok()?)),
+            "big" => Some(RowShape::Big(v.parse().ok()?)),
+            _ => None,
+        }
+    }
+    pub fn mask(self, idx: i32) -> u8 {
+        let off = match self {
+            RowShape::Nulls(k) => k as i32,
+            RowShape::Big(_) => 1,
+        };
+        ((idx + off).rem_euclid(8)) as u8
+    }
+}
+
+/// The row the script holds for (run, idx).
+pub fn row_value(run: i32, idx: i32, shape: RowShape) -> Row {
+    let m = shape.mask(idx);
+    let b = match shape {
+        RowShape::Big(n) if idx == 0 => Some((0..n).map(|j| (b'a' + (j % 23) as u8) as char).collect::<String>()),
+        _ if m & 2 != 0 => None,
+        _ => Some(format!("row-{idx}")),
+    };
+    (if m & 1 != 0 { None } else { Some(idx * 10 + 1) }, run, idx, b, if m & 4 != 0 { None } else { Some(-idx) })
+}
+
 #[derive(Clone, Debug, PartialEq, Eq, Hash)]
 pub struct Case {
     pub mode: Mode,
@@ -214,6 +262,8 @@ pub struct Case {
     pub cached_metadata: bool,
     /// the server attaches result metadata to this page although skipping was requested
     pub metadata_anyway_on: Option<usize>,
+    /// cell contents (NULL pattern / a big cell)
+    pub shape: RowShape,
 }
 impl Case {
     pub fn json(&self) -> Value {
@@ -227,6 +277,7 @@ impl Case {
             "nodes": self.nodes,
             "cached_metadata": self.cached_metadata,
             "metadata_anyway_on": self.metadata_anyway_on,
+            "rows": self.shape.name(),
         })
     }
     pub fn from_json(v: &Value) -> Option<Case> {
@@ -240,6 +291,7 @@ impl Case {
             nodes: v["nodes"].as_u64().map(|n| n as usize).unwrap_or(NODES).clamp(1, NODES),
             cached_metadata: v["cached_metadata"].as_bool().unwrap_or(false),
             metadata_anyway_on: v["metadata_anyway_on"].as_u64().map(|n| n as usize),
+            shape: v["rows"].as_str().and_then(RowShape::from_name).unwrap_or(RowShape::Nulls(0)),
         })
     }
     pub fn rows(&self) -> usize {
@@ -411,6 +463,7 @@ struct RunScript {
     /// request seq -> page the mock resolved it to (None: a state the server never returned)
     resolved: HashMap<u64, Option<usize>>,
     metadata_anyway_on: Option<usize>,
+    shape: RowShape,
 }
 #[derive(Default)]
 struct Shared {
@@ -420,7 +473,7 @@ struct Shared {
 }
 
 fn result_cols() -> Vec<ColSpec> {
-    vec![col("ks", "pg", "run", ColType::Int), col("ks", "pg", "idx", ColType::Int)]
+    vec![col("ks", "pg", "a", ColType::Int), col("ks", "pg", "run", ColType::Int), col("ks", "pg", "idx", ColType::Int), col("ks", "pg", "b", ColType::Text), col("ks", "pg", "c", ColType::Int)]
 }
 
 fn run_of(stmt: Option<&str>, values: &[mockcluster::wire::Val]) -> Option<i32> {
@@ -457,7 +510,14 @@ fn script_reply(shared: &Arc<Mutex<Shared>>, ctx: &mockcluster::ReqCtx) -> Reply
         rs.unknown_state = params.paging_state.clone();
         return Reply::error(ErrorBody::invalid("c07: unknown paging state"));
     };
-    let rows: Vec<Vec<mockcluster::wire::Cell>> = rs.pages[page].iter().map(|i| vec![val::int(run), val::int(*i)]).collect();
+    let shape = rs.shape;
+    let rows: Vec<Vec<mockcluster::wire::Cell>> = rs.pages[page]
+        .iter()
+        .map(|i| {
+            let (a, run, idx, b, c) = row_value(run, *i, shape);
+            vec![a.map(val::int).unwrap_or_else(val::null), val::int(run), val::int(idx), b.as_deref().map(val::text).unwrap_or_else(val::null), c.map(val::int).unwrap_or_else(val::null)]
+        })
+        .collect();
     let next = if page + 1 < rs.pages.len() { Some(rs.states[page + 1].clone()) } else { None };
     let mut normal = Response::rows_paged(result_cols(), rows, next);
     if rs.metadata_anyway_on == Some(page) {
@@ -551,7 +611,7 @@ pub enum End {
 
 #[derive(Default)]
 struct ProgState {
-    rows: Vec<(i32, i32)>,
+    rows: Vec<Row>,
     paused: bool,
     end: Option<End>,
     drop_mark: Option<u64>,
@@ -595,6 +655,9 @@ pub struct Observed {
     pub frames_checked: usize,
     pub states_checked: usize,
     pub max_state_len: usize,
+    pub null_cells: usize,
+    pub rows_after_null_row_in_page: usize,
+    pub max_cell_bytes: usize,
 }
 
 impl World {
@@ -604,7 +667,7 @@ impl World {
         for (i, t) in toks.iter().enumerate().take(nodes) {
             b = b.node(NodeSpec::new("dc1", &format!("r{i}"), t.to_vec()));
         }
-        b = b.keyspace(KeyspaceSpec::simple("ks", nodes).table(TableSpec::new("pg").pk("run", "int").col("idx", "int")));
+        b = b.keyspace(KeyspaceSpec::simple("ks", nodes).table(TableSpec::new("pg").pk("run", "int").col("idx", "int").col("a", "int").col("b", "text").col("c", "int")));
         let cluster = b.build().await?;
         let shared: Arc<Mutex<Shared>> = Arc::new(Mutex::new(Shared::default()));
         let sh = shared.clone();
@@ -666,6 +729,7 @@ impl World {
                     cursor: 0,
                     resolved: HashMap::new(),
                     metadata_anyway_on: case.metadata_anyway_on,
+                    shape: case.shape,
                 },
             );
         }
@@ -758,8 +822,22 @@ impl World {
             Some(k) => exp.rows[..k].to_vec(),
             None => exp.rows.clone(),
         };
-        let foreign = got_rows.iter().any(|(r, _)| *r != run);
-        let got_idx: Vec<i32> = got_rows.iter().map(|(_, i)| *i).collect();
+        let foreign = got_rows.iter().any(|r| r.1 != run);
+        let got_idx: Vec<i32> = got_rows.iter().map(|r| r.2).collect();
+        // NULLs delivered, and rows that came after a row with a NULL within the same page (their cells start at an
+        // offset that depends on how the NULL was skipped)
+        for (n, r) in got_rows.iter().enumerate() {
+            let nulls = r.0.is_none() as usize + r.3.is_none() as usize + r.4.is_none() as usize;
+            obs.null_cells += nulls;
+            if n > 0 && got_idx[n] == got_idx[n - 1] + 1 {
+                let prev = &got_rows[n - 1];
+                let same_page = (0..pages).any(|p| exp.first_row[p] as i32 <= prev.2 && (r.2 as usize) < exp.first_row[p + 1]);
+                if same_page && (prev.0.is_none() || prev.3.is_none() || prev.4.is_none()) {
+                    obs.rows_after_null_row_in_page += 1;
+                }
+            }
+            obs.max_cell_bytes = obs.max_cell_bytes.max(r.3.as_ref().map(|b| b.len()).unwrap_or(0));
+        }
         if foreign {
             complaints.push(mk("rows:foreign", format!("rows of another statement were delivered: {got_rows:?} (run {run})")));
         } else if got_idx != want_rows {
@@ -778,7 +856,14 @@ impl World {
             } else {
                 "rows:unexpected"
             };
-            complaints.push(mk(kind, format!("delivered rows {got_idx:?}; scripted pages {:?} with faults {:?} require {want_rows:?} (stream end: {})", case.split, fault_names(case), end_short(&end))));
+            complaints.push(mk(kind, format!("delivered rows (by idx) {got_idx:?}; scripted pages {:?} with faults {:?} require {want_rows:?} (stream end: {})", case.split, fault_names(case), end_short(&end))));
+        }
+        if !foreign && got_idx == want_rows {
+            if let Some(bad) = got_rows.iter().find(|r| **r != row_value(run, r.2, case.shape)) {
+                let want = row_value(run, bad.2, case.shape);
+                let short = |r: &Row| format!("({:?}, {}, {}, {:?}, {:?})", r.0, r.1, r.2, r.3.as_ref().map(|b| if b.len() > 24 { format!("<{} bytes>", b.len()) } else { b.clone() }), r.4);
+                complaints.push(mk("rows:cell-values", format!("row idx {} was delivered as {} but the script holds {} (rows {})", bad.2, short(bad), short(&want), case.shape.name())));
+            }
         }
         obs.end = match &end {
             End::Dropped => {
@@ -1047,9 +1132,9 @@ async fn consume(session: Arc<Session>, cluster: MockCluster, shared: Arc<Mutex<
             return Ok(());
         }
     };
-    let mut stream = match pager.rows_stream::<(i32, i32)>() {
+    let mut stream = match pager.rows_stream::<Row>() {
         Ok(s) => s,
-        Err(e) => return Err(format!("type check of (int, int) failed: {e}")),
+        Err(e) => return Err(format!("type check of the row type failed: {e}")),
     };
     let boundaries: BTreeSet<usize> = {
         // row counts at which the consumer sits on a page boundary: 0 and the end of every non-empty page but the last row
@@ -1257,6 +1342,11 @@ pub fn dimension_counts(cases: &[Case]) -> BTreeMap<String, u64> {
         bump(format!("cases_rows_{}", c.rows()));
         bump(format!("cases_faults_{}", c.faults.len()));
         bump(format!("cases_nodes_{}", c.nodes));
+        match c.shape {
+            RowShape::Nulls(_) => bump("cases_rows_with_null_pattern".into()),
+            RowShape::Big(n) if n > 65536 => bump("cases_with_page_body_over_64KiB".into()),
+            RowShape::Big(_) => bump("cases_with_page_body_over_32KiB".into()),
+        }
         if c.cached_metadata {
             bump(if c.metadata_anyway_on.is_some() { "cases_cached_metadata_server_attaches_metadata_anyway".into() } else { "cases_cached_metadata".into() });
         }
